@@ -17,7 +17,7 @@ def gen(scen):
     lines = ["@@HEAD@@", "", f"cThreads == 0..{n - 1}"]
     sc = " @@ ".join(f"{i} :> {tla_val(scripts.get('t%d' % i, []))}" for i in range(n))
     lines.append(f"cScript == ({sc})")
-    cl = ["CONSTANTS", " Threads <- cThreads", " Script <- cScript", ' defaultInitValue = "dflt"']
+    cl = ["CONSTANTS", " Threads <- cThreads", " Script <- cScript", ' defaultInitValue = defaultInitValue']
     for k, v in scen.get("consts", {}).items():
         if isinstance(v, dict) and "tla" in v:
             lines.append(f"c{k} == {v['tla']}")
